@@ -73,6 +73,15 @@ CATALOGUE = [
     ("second-link", ["{I}«.link 3000"], "address-conflict", "error", ("S",)),
     ("comma-after-mnemonic", ["{I}«mov », r0"], "invalid-insn", "critical", ("T",)),
     ("bad-caret-prefix", ["{I}«.word »^Q5"], "invalid-expression", "critical", ("T",)),
+    # an infix operator without its right operand, the offending token separated from it by blanks, a tab, a comment or a line break
+    ("dangling-operator-comma", ["{I}«.word 5 *   »,2"], "invalid-expression", "critical", ("T",)),
+    ("dangling-operator-tab", ["{I}«mov #5 & \t», r0"], "invalid-expression", "critical", ("T",)),
+    ("dangling-operator-bracket", ["{I}«.word <5 /  »>"], "invalid-expression", "critical", ("T",)),
+    ("dangling-operator-next-line", ["{I}«.word 5 * ; why", "\t\t», 2"], "invalid-expression", "critical", ("T",)),
+    # the first number of a compound branch operand that can be a local label is one: an undefined one is reported where it stands
+    ("undefined-local-after-decimal", ["{I}«sob r0, 4.+»77"], "undefined-symbol", "error", ("T",)),
+    ("undefined-local-after-minus", ["{I}«br -2+»66"], "undefined-symbol", "error", ("T",)),
+    ("undefined-local-after-char", ["{I}«bne 'a-»55"], "undefined-symbol", "error", ("T",)),
     ("unclosed-bracket", ["{I}«.word (1 + 2"], "invalid-expression", "critical", None),
     ("missing-operand-after-comma", ["{I}«mov r0,", "{I}}}"], "invalid-operand", "critical", None),
     ("glued-operand", ["{I}«mov»#1, r0"], "missing-whitespace", "error", ("T",)),
